@@ -31,6 +31,7 @@ import (
 	"testing"
 	"time"
 
+	oe "github.com/ossrs/go-oryx-lib/errors"
 	ol "github.com/ossrs/go-oryx-lib/logger"
 )
 
@@ -411,6 +412,9 @@ func vC19Gen(r *vRng) vSx {
 	if r.chance(1, 9) {
 		return vL(vL(vZ(5), vS(vC19Version(r))), vS(cb), vS(srv), vZ(0), vI(r.intn(3)), vB(nil), vL(vZ(0)), vC19GenFx(r, false))
 	}
+	if r.chance(1, 8) {
+		return vL(vC19GenErrValue(r), vS(cb), vS(srv), vZ(0), vI(0), vB(nil), vL(vZ(0)), vC19GenFx(r, false))
+	}
 	switch r.intn(10) {
 	case 9:
 		// a replaced FilterData hook returning an arbitrary object, possibly with its own status
@@ -474,6 +478,190 @@ func vC19Serve(h http.Handler, q string) (rec *httptest.ResponseRecorder, panick
 	rec = httptest.NewRecorder()
 	panicked = vPanicText(func() { h.ServeHTTP(rec, httptest.NewRequest("GET", "/api"+q, nil)) })
 	return
+}
+
+// ---- error values with combinations of the optional methods ----
+type vC19mBase struct{ t string }
+
+func (m vC19mBase) Error() string { return m.t }
+
+type vC19mCode struct{ c int }
+
+func (m vC19mCode) Code() int { return m.c }
+
+type vC19mStatus struct{ s int }
+
+func (m vC19mStatus) Status() int { return m.s }
+
+type vC19mCause struct{ e error }
+
+func (m vC19mCause) Cause() error { return m.e }
+
+type vC19mUnwrap struct{ u error }
+
+func (m vC19mUnwrap) Unwrap() error { return m.u }
+
+// a struct that has exactly the methods selected by mask: 1 Code(), 2 Status(), 4 Cause(), 8 Unwrap()
+func vC19Mix(mask int, text string, c, st int, inner error) error {
+	b, cd, ss, ca, un := vC19mBase{text}, vC19mCode{c}, vC19mStatus{st}, vC19mCause{inner}, vC19mUnwrap{inner}
+	switch mask & 15 {
+	case 0:
+		return b
+	case 1:
+		return struct {
+			vC19mBase
+			vC19mCode
+		}{b, cd}
+	case 2:
+		return struct {
+			vC19mBase
+			vC19mStatus
+		}{b, ss}
+	case 3:
+		return struct {
+			vC19mBase
+			vC19mCode
+			vC19mStatus
+		}{b, cd, ss}
+	case 4:
+		return struct {
+			vC19mBase
+			vC19mCause
+		}{b, ca}
+	case 5:
+		return struct {
+			vC19mBase
+			vC19mCode
+			vC19mCause
+		}{b, cd, ca}
+	case 6:
+		return struct {
+			vC19mBase
+			vC19mStatus
+			vC19mCause
+		}{b, ss, ca}
+	case 7:
+		return struct {
+			vC19mBase
+			vC19mCode
+			vC19mStatus
+			vC19mCause
+		}{b, cd, ss, ca}
+	case 8:
+		return struct {
+			vC19mBase
+			vC19mUnwrap
+		}{b, un}
+	case 9:
+		return struct {
+			vC19mBase
+			vC19mCode
+			vC19mUnwrap
+		}{b, cd, un}
+	case 10:
+		return struct {
+			vC19mBase
+			vC19mStatus
+			vC19mUnwrap
+		}{b, ss, un}
+	case 11:
+		return struct {
+			vC19mBase
+			vC19mCode
+			vC19mStatus
+			vC19mUnwrap
+		}{b, cd, ss, un}
+	case 12:
+		return struct {
+			vC19mBase
+			vC19mCause
+			vC19mUnwrap
+		}{b, ca, un}
+	case 13:
+		return struct {
+			vC19mBase
+			vC19mCode
+			vC19mCause
+			vC19mUnwrap
+		}{b, cd, ca, un}
+	case 14:
+		return struct {
+			vC19mBase
+			vC19mStatus
+			vC19mCause
+			vC19mUnwrap
+		}{b, ss, ca, un}
+	}
+	return struct {
+		vC19mBase
+		vC19mCode
+		vC19mStatus
+		vC19mCause
+		vC19mUnwrap
+	}{b, cd, ss, ca, un}
+}
+
+// a coded error whose Cause() and Unwrap() return the error itself
+type vC19SelfErr struct {
+	c int
+	t string
+}
+
+func (e *vC19SelfErr) Error() string { return e.t }
+func (e *vC19SelfErr) Code() int     { return e.c }
+func (e *vC19SelfErr) Cause() error  { return e }
+func (e *vC19SelfErr) Unwrap() error { return e }
+
+type vC19EmbedSys struct{ SystemError }
+
+// (8 shape c st xtext mask cause wrap tv)
+func vC19ErrValue(shape, c, st int, text string, mask, cause, wrap int) error {
+	var inner error
+	switch cause {
+	case 1:
+		inner = errors.New("root cause")
+	case 2:
+		inner = SystemError(777)
+	case 3:
+		inner = SystemComplexError{SystemError(778), "inner complex"}
+	case 4:
+		inner = vC19App{779, "inner app"}
+	case 5:
+		inner = oe.New("inner from the errors package")
+	}
+	var e error
+	switch shape {
+	case 0:
+		e = SystemComplexError{SystemError(c), text}
+	case 1:
+		e = SystemError(c)
+	case 3:
+		e = &SystemComplexError{SystemError(c), text}
+	case 4:
+		e = vC19EmbedSys{SystemError(c)}
+	case 5:
+		e = &vC19SelfErr{c, text}
+	default:
+		e = vC19Mix(mask, text, c, st, inner)
+	}
+	switch wrap {
+	case 1:
+		e = oe.Wrap(e, "wrapped")
+	case 2:
+		e = oe.WithMessage(e, "with message")
+	case 3:
+		e = oe.WithStack(e)
+	case 4:
+		e = oe.Wrapf(oe.WithMessage(e, "m"), "outer %d", 1)
+	}
+	return e
+}
+
+func vC19GenErrValue(r *vRng) vSx {
+	shape := r.pickInt(0, 1, 2, 2, 2, 2, 2, 2, 3, 4, 5)
+	wrap := r.pickInt(0, 0, 0, 0, 1, 2, 3, 4)
+	st := r.pickInt(200, 201, 400, 404, 500, 503, 302)
+	return vL(vZ(8), vI(shape), vC19Code(r), vI(st), vS(vC19Msg(r)), vI(r.intn(16)), vI(r.intn(6)), vI(wrap), vL(vZ(0)))
 }
 
 // ---- overlapping responses ----
@@ -875,6 +1063,8 @@ func vC19Run(k *vKit, env *vC19Env, c vSx) {
 	savedFilter := FilterData
 	defer func() { FilterData = savedFilter }()
 	var rawMembers map[string]interface{}
+	ekind := 0             // kind 8: the kind of the error value itself (1 system, 2 complex, 3 application, 4 plain)
+	tvp := vL(vZ(0))       // the decoder's view of a plain error's text
 	var expect interface{} // the object the body must be the JSON of (nil: a text body)
 	build := func() {
 		switch kind {
@@ -922,7 +1112,8 @@ func vC19Run(k *vKit, env *vC19Env, c vSx) {
 			}
 		case 4:
 			st, msg = p.l[1].int(), string(p.l[2].b)
-			p = vL(vZ(4), vI(st), vS(msg), vC19View([]byte(msg+"\n")))
+			tvp = vC19View([]byte(msg + "\n"))
+			p = vL(vZ(4), vI(st), vS(msg), tvp)
 			if st < 0 {
 				h = Error(nil, errors.New(msg))
 			} else {
@@ -948,6 +1139,43 @@ func vC19Run(k *vKit, env *vC19Env, c vSx) {
 			p = vL(vZ(6), vI(st), p.l[2], vS(merr), vC19View([]byte(merr+"\n")))
 			h = Data(nil, "ignored by the hook")
 			nontrivial = true
+		case 8:
+			if len(p.l) != 9 {
+				return
+			}
+			e := vC19ErrValue(p.l[1].int(), int(p.l[2].i64()), p.l[3].int(), string(p.l[4].b), p.l[5].int(), p.l[6].int(), p.l[7].int())
+			text := e.Error()
+			// the kind of the value that is passed in, as the property words it: its own type / its own Code()
+			switch v := e.(type) {
+			case SystemComplexError:
+				ekind, code, msg = 2, int64(v.Code), v.Message
+				expect = map[string]interface{}{"code": int(code), "data": msg}
+			case SystemError:
+				ekind, code = 1, int64(v)
+				expect = map[string]interface{}{"code": int(code)}
+			default:
+				if cd, ok := e.(interface {
+					Code() int
+				}); ok {
+					ekind, code, msg = 3, int64(cd.Code()), text
+					expect = map[string]interface{}{"code": int(code), "data": msg}
+				} else {
+					ekind, msg, st = 4, text, -1
+					if hs, ok := e.(interface {
+						Status() int
+					}); ok {
+						st = hs.Status()
+					}
+				}
+			}
+			tvp = vC19View([]byte(text + "\n"))
+			field := text
+			if ekind == 2 {
+				field = msg // SystemComplexError: the case carries the Message, not the Error() text
+			}
+			p = vL(vZ(8), p.l[1], p.l[2], p.l[3], vS(field), p.l[5], p.l[6], p.l[7], tvp)
+			h = Error(nil, e)
+			nontrivial = p.l[5].int() > 1 || p.l[7].int() != 0
 		case 5:
 			msg = string(p.l[1].b)
 			expect = map[string]interface{}{"code": 0, "server": pid, "data": vC19VersionObj(msg, srv)}
@@ -955,13 +1183,23 @@ func vC19Run(k *vKit, env *vC19Env, c vSx) {
 			nontrivial = strings.Contains(msg, "-") && strings.Contains(msg, ".")
 		}
 	}
-	if kind < 0 || kind > 6 {
+	if kind < 0 || kind > 8 || kind == 7 {
 		k.record(c, bad, false)
 		return
 	}
-	if msg := vPanicText(build); msg != "" || h == nil {
+	// building the handler (Error(ctx, err) inspects the error right away) must come back too
+	built := make(chan string, 1)
+	go func() { built <- vPanicText(build) }()
+	select {
+	case msg := <-built:
+		if msg != "" || h == nil {
+			idx := k.record(c, vPanicObs(), false)
+			k.fail(idx, c.size(), "no-panic", "", "building the handler panicked: "+msg)
+			return
+		}
+	case <-time.After(3 * time.Second):
 		idx := k.record(c, vPanicObs(), false)
-		k.fail(idx, c.size(), "no-panic", "", "building the handler panicked: "+msg)
+		k.fail(idx, c.size(), "handler-returns", "", "building the handler did not return within 3 s for this error value")
 		return
 	}
 	if kind >= 1 && kind <= 3 && code < 0 {
@@ -982,6 +1220,24 @@ func vC19Run(k *vKit, env *vC19Env, c vSx) {
 		fx = c.l[7]
 	}
 	c = vL(p, c.l[1], c.l[2], vI(pid), c.l[4], vB(mb), jtv, fx)
+	if kind == 8 {
+		// a handler that does not come back (e.g. chasing a Cause() chain that returns the value
+		// itself) must not stall the run
+		done := make(chan struct{})
+		go func() {
+			defer close(done)
+			vC19Serve(h, "")
+		}()
+		select {
+		case <-done:
+		case <-time.After(3 * time.Second):
+			idx := k.record(c, vPanicObs(), nontrivial)
+			k.fail(idx, c.size(), "handler-returns", "", "the handler did not return within 3 s for this error value")
+			return
+		}
+		k.count("error-value-kind", fmt.Sprint(ekind))
+		kind = ekind
+	}
 
 	// the response itself
 	q := ""
@@ -1245,7 +1501,7 @@ func vC19Run(k *vKit, env *vC19Env, c vSx) {
 		}
 		if cErr == nil {
 			key := ""
-			tv := p.l[3]
+			tv := tvp
 			if wantSt >= 200 && wantSt < 300 && len(tv.l) == 2 && tv.l[0].int() == 3 && tv.l[1].i64() == 0 {
 				key = "plain-error-2xx-json"
 			}
